@@ -83,7 +83,8 @@ AvgItems(ev) ==
            witOK == \A i \in 1..n : LET Xi == M(g, DV(ev.pts[i])) IN
                         WitnessOK(ev, g, MMul(MInv(Mm), Xi), MMul(AbsR(g, MInv(Mm)), AbsR(g, Xi)), ws[i])
            mean == MeanVec(ws, n)
-       IN << Item("valid", FRatioMilli(Dev(g, m), band)) >>
+       IN << Item("valid", FRatioMilli(Dev(g, m), band)),
+             Item("containers", IF ev.mlist = ev.m /\ ev.mdeque = ev.m THEN 0 ELSE BADR) >>
           \o (IF ev.kind \in {"n1", "same"} THEN << Item("point", Close(ev, g, Mm, M(g, DV(ev.pts[1])), AbsR(g, Mm))) >> ELSE << >>)
           \o (IF ev.routine # "average" /\ n >= 2
               THEN << Item("stationary", IF witOK THEN VRatio(mean, [i \in 1..Len(mean) |-> Z], [i \in 1..Len(mean) |-> FMulInt(SqrtEps(ev), 2)]) ELSE BADR) >>
